@@ -198,7 +198,7 @@ structure ObGen where
   threshold : Nat
 deriving Repr, Inhabited
 
-def Book.rec (b : Book) : BookRec := { uid := b.uid, partCount := b.partCount, oddsCount := b.oddsCount, status := b.status }
+def Book.header (b : Book) : BookRec := { uid := b.uid, partCount := b.partCount, oddsCount := b.oddsCount, status := b.status }
 
 def betUidOf (s : State) (id : Nat) : Nat :=
   match s.bets.find? (fun b => b.id == id) with
@@ -209,9 +209,9 @@ def betUidOf (s : State) (id : Nat) : Nat :=
     concatenation over the books). Both exposure lists are read from the by-odds store (`GetAllParticipationExposures`
     is called twice). -/
 def exportOb (s : State) : ObGen :=
-  { books := s.books.map Book.rec,
+  { books := s.books.map Book.header,
     parts := (s.books.map (fun b => b.parts.map (fun p => (b.uid, p)))).flatten,
-    queues := (s.books.map (fun b => b.queues.map (fun q => (b.uid, q.1, q.2)))).flatten,
+    queues := (s.books.map (fun b => b.queues.map (fun q => (b.uid, q)))).flatten,
     pexps := (s.books.map (fun b => b.pexps.map (fun e => (b.uid, e)))).flatten,
     pexpsByIdx := (s.books.map (fun b => b.pexps.map (fun e => (b.uid, e)))).flatten,
     hist := (s.books.map (fun b => b.hist.map (fun e => (b.uid, e)))).flatten,
